@@ -413,6 +413,13 @@ def gen_instance(rng, big=False, kind=None):
             if e < ns and rng.random() < 0.8:
                 must = ["d", e]
             eqs.append(gen_eq(rng, inst, nonlinear, must=must))
+    if nonlinear and eqs and all(
+            sum(1 for f in facs if f[0] in ("v", "d")) <= 1 for eq in eqs for _c, facs in eq["t"]):
+        # make sure a nonlinear instance has a product of two decision quantities (x*u, x^2, x*der)
+        nv = ns + na + nc
+        a = ["v", rng.randrange(nv)]
+        b = rng.choice([["v", rng.randrange(nv)], a] + ([["d", rng.randrange(ns)]] if ns else []))
+        rng.choice(eqs)["t"].append([dy(rng), [a, b]])
     inst["eqs"] = eqs
     if kind != "solve" and rng.random() < 0.5:
         inst["init_eqs"] = [gen_eq(rng, inst, nonlinear) for _ in range(rng.randint(1, 2))]
